@@ -98,6 +98,17 @@ CHECKS = {
             "(frequencies assumed ascending as the library does); one exemption (spread_hp01, width cancels) is tabled.",
             "order-provenance abstract interpretation over ast + idiom dataflow + sibling cross-check",
             "DESIGN.md section 4 C05"),
+    "C06": (True, "other",
+            "Provenance typing (per-spectrum data / shared coordinate / argument) over every xarray-level statistic, transform "
+            "and partition wrapper decides that each reduction, cumulative, rolling, interpolation or sort on data names "
+            "spectral dimensions only, that no float()/int()/.item() or Python branch condition depends on data, that every "
+            "apply_ufunc is vectorised over the non-spectral dims, that the Dataset accessor re-exports the efth accessor "
+            "unshadowed, and (shared C rules) that the native work buffers are rebuilt/overwritten per call and read a "
+            "C-contiguous copy of exactly one spectrum. These structural facts are why position i cannot see position j.",
+            "bit-exact equality batched vs single (floating-point association) is not decided; hmax is excluded by the "
+            "property; parameter-name seeds of the provenance typing are stated assumptions.",
+            "provenance/dimension typing lint over ast + apply_ufunc site rules + clang-AST definite-initialisation rules",
+            "DESIGN.md section 4 C06"),
 }
 
 NA_DEFAULT = "check under construction in this build round (see DESIGN.md section 8)"
